@@ -96,3 +96,34 @@ mutant('C06-spinodal-inplace', 'C06', 'R06.f', CA + 'spinodal_condition.py', 'om
 mutant('C06-solv-alias', 'C06', 'R06.f', CA + 'solvation_potential.py', "psi = PRISM.directCorr.dot(structureFactor).dot(PRISM.directCorr)\n", "psi = PRISM.directCorr.dot(structureFactor,inplace=True).dot(PRISM.directCorr)\n")
 mutant('C06-gr-alias', 'C06', 'R06.c', CA + 'pair_correlation.py', "    PRISM.pairCorr = PRISM.totalCorr + 1.0", "    PRISM.totalCorr += 1.0\n    PRISM.pairCorr = PRISM.totalCorr")
 twin('C06-twin-guard-neq', 'C06', CA + 'second_virial.py', 'if PRISM.totalCorr.space == Space.Real:', 'if PRISM.totalCorr.space != Space.Fourier:')
+
+PR = 'pyPRISM/core/PRISM.py'
+mutant('C01-no-copy', 'C01', 'R01.a', PR, 'self.GammaIn.data = np.copy(x.reshape((-1,self.sys.rank,self.sys.rank)))', 'self.GammaIn.data = x.reshape((-1,self.sys.rank,self.sys.rank))')
+mutant('C01-wrong-pair-gamma', 'C01', 'R01.b', PR, 'closure.calculate(self.sys.domain.r,self.GammaIn[t1,t2])', 'closure.calculate(self.sys.domain.r,self.GammaIn[t2,t2])')
+mutant('C01-closure-on-k', 'C01', 'R01.b', PR, 'closure.calculate(self.sys.domain.r,self.GammaIn[t1,t2])', 'closure.calculate(self.sys.domain.k,self.GammaIn[t1,t2])')
+mutant('C01-transposed', 'C01', 'R01.c', PR, 'self.OC = self.omega.dot(self.directCorr)', 'self.OC = self.directCorr.dot(self.omega)')
+mutant('C01-I-plus', 'C01', 'R01.c', PR, 'self.IOC = self.I - self.OC', 'self.IOC = self.I + self.OC')
+mutant('C01-missing-factor', 'C01', 'R01.c', PR, 'self.totalCorr  = self.IOC.dot(self.OC).dot(self.omega)', 'self.totalCorr  = self.IOC.dot(self.OC)')
+mutant('C01-site-not-pair', 'C01', 'R01.c', PR, 'self.totalCorr /= self.sys.density.pair', 'self.totalCorr /= self.sys.density.site')
+mutant('C01-mul-pair', 'C01', 'R01.c', PR, 'self.totalCorr /= self.sys.density.pair', 'self.totalCorr *= self.sys.density.pair')
+mutant('C01-no-invert', 'C01', 'R01.c', PR, '        self.IOC.invert(inplace=True)\n', '')
+mutant('C01-residual-sign', 'C01', 'R01.e', PR, 'self.GammaOut  = self.totalCorr - self.directCorr', 'self.GammaOut  = self.totalCorr + self.directCorr')
+mutant('C01-residual-nor', 'C01', 'R01.e', PR, 'self.y = self.sys.domain.long_r*(self.GammaOut.data - self.GammaIn.data)', 'self.y = (self.GammaOut.data - self.GammaIn.data)')
+mutant('C01-omega-unscaled', ['C01', 'C16'], 'R16.w', PR, "        self.omega *= sys.density.site #omega should always be scaled by site density \n", '')
+mutant('C01-omega-pair', ['C01', 'C16'], 'R16.w', PR, 'self.omega *= sys.density.site', 'self.omega *= sys.density.pair')
+mutant('C01-no-kT', ['C01', 'C16'], 'R16.w', PR, "                self.sys.closure[t1,t2].potential = U.calculate(self.sys.domain.r) / self.sys.kT\n            elif", "                self.sys.closure[t1,t2].potential = U.calculate(self.sys.domain.r)\n            elif")
+mutant('C01-no-resync', ['C01', 'C06'], 'R01.f', PR, '        self.cost(self.minimize_result.x)\n', '')
+mutant('C06-no-space-reset', 'C06', 'R01.f', PR, '        self.directCorr.space = Space.Real \n', '')
+mutant('C16-no-deepcopy', 'C16', 'R16.c', PR, 'self.sys = deepcopy(sys)', 'self.sys = sys')
+mutant('C16-sigma-overwrite', 'C16', 'R16.w', PR, "                if U.sigma is None:\n                    U.sigma = self.sys.diameter[t1,t2]\n                self.sys.closure[t1,t2].sigma = self.sys.diameter[t1,t2]\n                self.sys.closure[t1,t2].potential = U.calculate(self.sys.domain.r) / self.sys.kT",
+       "                U.sigma = self.sys.diameter[t1,t2]\n                self.sys.closure[t1,t2].sigma = self.sys.diameter[t1,t2]\n                self.sys.closure[t1,t2].potential = U.calculate(self.sys.domain.r) / self.sys.kT")
+mutant('C16-potential-on-k', 'C16', 'R16.w', PR, "                self.sys.closure[t1,t2].potential = U.calculate(self.sys.domain.r) / self.sys.kT\n            elif", "                self.sys.closure[t1,t2].potential = U.calculate(self.sys.domain.k) / self.sys.kT\n            elif")
+mutant('C16-write-caller', 'C16', 'R16.c', PR, "                self.sys.closure[t1,t2].sigma = self.sys.diameter[t1,t2]\n                self.sys.closure[t1,t2].potential = U.calculate(self.sys.domain.r) / self.sys.kT\n            elif",
+       "                sys.closure[t1,t2].sigma = self.sys.diameter[t1,t2]\n                self.sys.closure[t1,t2].sigma = self.sys.diameter[t1,t2]\n                self.sys.closure[t1,t2].potential = U.calculate(self.sys.domain.r) / self.sys.kT\n            elif")
+mutant('C16-omega-real', 'C16', 'R16.w', PR, 'exportToMatrixArray(space=Space.Fourier)', 'exportToMatrixArray(space=Space.Real)')
+SY = 'pyPRISM/core/System.py'
+mutant('C16-check-omits-omega', 'C16', 'R16.x', SY, 'for table in [self.density,self.potential,self.closure,self.omega,self.diameter]:', 'for table in [self.density,self.potential,self.closure,self.diameter]:')
+mutant('C16-solve-no-check', 'C16', 'R16.d', SY, "        self.check() #sanity check\n\n        p = PRISM(self)", "        p = PRISM(self)")
+mutant('C16-domain-not-refused', 'C16', 'R16.x', SY, "        if self.domain is None:\n            raise ValueError(('System has no domain! '\n                              'User must instatiate and assign a domain to the system!'))\n", "")
+twin('C01-twin-pushthrough', ['C01', 'C06'], PR, 'self.totalCorr  = self.IOC.dot(self.OC).dot(self.omega)', 'self.totalCorr  = self.OC.dot(self.IOC).dot(self.omega)')
+twin('C01-twin-temp', ['C01', 'C06', 'C16'], PR, 'self.GammaOut  = self.totalCorr - self.directCorr', 'tmp = self.directCorr * -1.0\n        self.GammaOut  = tmp + self.totalCorr')
